@@ -77,9 +77,12 @@ def obj_decl_hook(wp, v, init):
         wp.env[v['name']] = V(v['name'], 'Array', val.c)
         for i in range(val.c):
             wp.env[f'{v["name"]}.{i}'] = wp.env[f'{val.t}.{i}']
+        record(wp, 'snapshot', name=v['name'], of=val.t)
         return True
     if isinstance(val, Obj):
         wp.env[v['name']] = val
+        if val.kind == 'stats' and wp.real:      # stats_t::m_mean of a statistics block: uninterpreted M(cell)
+            wp.env[f'{v["name"]}.m_mean'] = V(f'(M {" ".join(val["of"]["idx"])})', 'Real', 'double')
         return True
     raise Unsupported(f'{wp.name}: local {v["name"]} of type {v["type"].get("qualType")}')
 
@@ -205,6 +208,66 @@ def c_move(wp, n, args, callee):
     return wp.ev(args[0])
 
 
+def m_resize(wp, n, args, obj):
+    """tensor.resize(d0, .., dk): the new dimensions; C16's tensor invariant (extents >= 0, size <= 2^62) is an obligation"""
+    arr = array_name(wp, obj)
+    rank = wp.env[arr].c
+    vals = [wp.conv(wp.ev(a), 'Int', 'long', a) for a in args]
+    if len(vals) != rank:
+        raise Unsupported(f'{wp.name}: resize with {len(vals)} dimensions on rank {rank}')
+    for k, v in enumerate(vals):
+        wp.oblige(f'{arr.split(".")[-1]}.resize(..): dimension {k} is non-negative', f'(>= {v.t} 0)', n)
+        wp.env[f'{arr}.{k}'] = V(v.t, 'Int', 'long')
+    wp.oblige(f'{arr.split(".")[-1]}.resize(..): number of elements within the tensor bound 2^62',
+              f'(<= (* {" ".join(v.t for v in vals)}) {BOUND})', n)
+    record(wp, 'resize', arr=arr)
+    return V('0', 'Int', 'int')
+
+
+def m_slice(wp, n, args, obj):
+    """tensor.slice(begin, end): rows [begin, end) -- precondition 0 <= begin <= end <= size<0>() is an obligation"""
+    arr = array_name(wp, obj)
+    b, e = [wp.conv(wp.ev(a), 'Int', 'long', a) for a in args]
+    wp.oblige(f'{arr.split(".")[-1]}.slice(begin, end): 0 <= begin <= end <= size<0>()',
+              f'(and (<= 0 {b.t}) (<= {b.t} {e.t}) (<= {e.t} {dim(wp, arr, 0)}))', n)
+    return Obj('slice', base=arr, begin=b.t, end=e.t, rest=tuple(dim(wp, arr, k) for k in range(1, wp.env[arr].c)))
+
+
+def c_assign_tensor(wp, n, args, callee):
+    """slice = tensor: element-wise copy; the shapes must agree (obligation)"""
+    dst, src = wp.ev(args[0]), wp.ev(args[1])
+    if not isinstance(dst, Obj) or dst.kind != 'slice' or src.s != 'Array':
+        raise Unsupported(f'{wp.name}: tensor assignment {dst.t} = {src.t}')
+    shape = [f'(= (- {dst["end"]} {dst["begin"]}) {dim(wp, src.t, 0)})'] + \
+        [f'(= {d} {dim(wp, src.t, k + 1)})' for k, d in enumerate(dst['rest'])]
+    wp.oblige(f'{dst["base"].split(".")[-1]}.slice(..) = {src.t}: shapes agree', AND(*shape), n)
+    record(wp, 'copy', dst=dst, src=src.t)
+    return dst
+
+
+def m_full(wp, n, args, obj):
+    dst = wp.ev(obj)
+    a = unwrap(args[0])
+    nan = a.get('kind') == 'CallExpr' and unwrap(a['inner'][0]).get('referencedDecl', {}).get('name') == 'quiet_NaN'
+    record(wp, 'fill', dst=dst, nan=nan)
+    return dst
+
+
+def m_emplace_back(wp, n, args, obj):
+    """std::vector::emplace_back: the size grows by one (argument expressions only build the new element)"""
+    key = f'{vec_name(wp, obj)}.size'
+    old = wp.env[key]
+    wp.env[key] = wp.arith('+', old, V('1', 'Int', old.c), old.c, n)
+    return V('0', 'Int', 'int')
+
+
+def m_stats_call(wp, n, args, obj):
+    """call of result_t::stats(trial, fold, split, value): its SMT contract (proved for the callee below)"""
+    t, f, sp, vl = [wp.ev(a) for a in args]
+    wp.oblige('callee stats(trial, fold, ..) precondition: 0 <= trial < trials(), 0 <= fold < folds()', in_box(wp, t.t, f.t), n)
+    return Obj('stats', of=Obj('view', base='self.m_values', idx=cell(wp, t.t, f.t, sp.t, vl.t)))
+
+
 def enum_hook(wp, n):
     """enumerators are distinct symbolic integers (no reliance on their numeric values)"""
     if n.get('kind') == 'DeclRefExpr' and n['referencedDecl'].get('kind') == 'EnumConstantDecl':
@@ -245,9 +308,11 @@ def same_view(view, base, idx):
     return AND(*[f'(= {a} {b})' for a, b in zip(view['idx'], idx)])
 
 
-CALLS_R = [(r'^store_stats\|', c_store_stats), (r'^load_stats\|', c_load_stats), (r'^operator\[\]\|.*std::vector', c_vec_index),
+CALLS_R = [(r'^operator=\|.*tensor_t<', c_assign_tensor), (r'^store_stats\|', c_store_stats), (r'^load_stats\|', c_load_stats), (r'^operator\[\]\|.*std::vector', c_vec_index),
            (r'^operator=\|std::any &\(std::any &&\)', c_assign_any), (r'^move\|', c_move)]
-MEMBERS_R = [(r'^size\|.*tensor', m_size), (r'^tensor\|.*tensor', m_tensor), (r'^folds\|.*result_t', m_folds),
+MEMBERS_R = [(r'^resize\|.*tensor', m_resize), (r'^slice\|.*tensor', m_slice), (r'^full\|.*tensor', m_full),
+             (r'^emplace_back\|.*std::vector', m_emplace_back), (r'^stats\|.*result_t', m_stats_call),
+             (r'^size\|.*tensor', m_size), (r'^tensor\|.*tensor', m_tensor), (r'^folds\|.*result_t', m_folds),
              (r'^trials\|.*result_t', m_trials)]
 
 
@@ -365,7 +430,112 @@ def result_vcs():
         return out
     add(mk('result_t::stats', TU_R, 'result_t::stats', 'stats', nparams(4), setup_stats, post_stats,
            'statistics are read from the cell they were stored in', SRC_R))
+
+    # ---- add(params_to_try): the slots of the new trials exist afterwards, old trials are preserved
+    def setup_add(wp, keys):
+        setup_result(wp)
+        tensor(wp, 'params_to_try', 2)
+        n, P = dim(wp, 'params_to_try', 0), dim(wp, 'params_to_try', 1)
+        wp.assume(f'(> {n} 0)')                                        # assert(params_to_try.size<0>() > 0)
+        wp.assume(f'(= {P} {dim(wp, "self.m_params", 1)})')            # assert(size<1>() == m_spaces.size()) + class invariant
+        wp.assume(f'(<= (* 48 (* (+ {wp.T} {n}) {wp.F})) {BOUND})')    # the grown tensors respect C16's bound (memory)
+        wp.assume(f'(<= (* (+ {wp.T} {n}) {P}) {BOUND})')
+        wp.assume(f'(<= (+ {wp.T} {n}) {BOUND})')                      # number of trials itself bounded (matters only when folds == 0)
+        wp.T0, wp.nn, wp.P = wp.T, n, P
+        wp.E0 = wp.env['self.m_extras.size'].t
+
+    def sizes(wp, extra):
+        return [(f'{vec}.size() == folds * old_trials + {extra[0]}', f'(= {wp.env[f"self.{vec}.size"].t} (+ {wp.E0} {extra[1]}))')
+                for vec in ('m_extras', 'm_log_paths')]
+
+    def inv_outer(wp):
+        fold, folds, trials = wp.env['fold'].t, wp.env['folds'].t, wp.env['trials'].t
+        return [('0 <= fold <= folds', f'(and (<= 0 {fold}) (<= {fold} {folds}))')] + sizes(wp, ('fold * trials', f'(* {fold} {trials})'))
+    inv_outer.havoc = ('self.m_extras.size', 'self.m_log_paths.size')
+    inv_outer.decreases = lambda wp, env: f'(- {env["folds"].t} {env["fold"].t})'
+
+    def inv_inner(wp):
+        fold, trial, trials = wp.env['fold'].t, wp.env['trial'].t, wp.env['trials'].t
+        return [('0 <= trial <= trials', f'(and (<= 0 {trial}) (<= {trial} {trials}))')] + \
+            sizes(wp, ('fold * trials + trial', f'(+ (* {fold} {trials}) {trial})'))
+    inv_inner.havoc = inv_outer.havoc
+    inv_inner.decreases = lambda wp, env: f'(- {env["trials"].t} {env["trial"].t})'
+
+    def post_add(wp, rv):
+        T1 = f'(+ {wp.T0} {wp.nn})'
+        out = [('trials() == old trials + new trials', f'(= {dim(wp, "self.m_values", 0)} {T1})'),
+               ('folds() is unchanged', f'(= {dim(wp, "self.m_values", 1)} {wp.F})'),
+               ('m_values keeps the layout (trial, fold, 2, 2, 12)', AND(*[f'(= {dim(wp, "self.m_values", k)} {v})' for k, v in ((2, 2), (3, 2), (4, 12))])),
+               ('m_params has one row per trial', f'(and (= {dim(wp, "self.m_params", 0)} {T1}) (= {dim(wp, "self.m_params", 1)} {wp.P}))')]
+        for vec in ('m_extras', 'm_log_paths'):
+            out.append((f'{vec} has one slot per (trial, fold): size == folds * trials', f'(= {wp.env[f"self.{vec}.size"].t} (* {wp.F} {T1}))'))
+        # data flow: old rows preserved (copied back from a snapshot taken before the resize), new rows initialised
+        kinds = [what for what, kw in wp.rec]
+        want = ['snapshot', 'resize', 'copy', 'copy', 'snapshot', 'resize', 'copy', 'fill']
+        out.append(('add() snapshots, resizes, restores and initialises in this order', 'true' if kinds == want else 'false'))
+        if kinds == want:
+            r = [kw for what, kw in wp.rec]
+
+            def rows(o, base, b, e):
+                return AND(f'(= {o["begin"]} {b})', f'(= {o["end"]} {e})') if o['base'] == base else 'false'
+            ok = r[0]['of'] == 'self.m_params' and r[1]['arr'] == 'self.m_params' and r[2]['src'] == r[0]['name']
+            out.append(('old parameter rows [0, old trials) are restored from the snapshot taken before the resize',
+                        rows(r[2]['dst'], 'self.m_params', '0', wp.T0) if ok else 'false'))
+            out.append(('the new parameter rows [old trials, trials) are params_to_try',
+                        rows(r[3]['dst'], 'self.m_params', wp.T0, T1) if r[3]['src'] == 'params_to_try' else 'false'))
+            ok = r[4]['of'] == 'self.m_values' and r[5]['arr'] == 'self.m_values' and r[6]['src'] == r[4]['name']
+            out.append(('statistics of the old trials [0, old trials) are restored from the snapshot taken before the resize',
+                        rows(r[6]['dst'], 'self.m_values', '0', wp.T0) if ok else 'false'))
+            out.append(('statistics of the new trials [old trials, trials) start as NaN (not evaluated yet)',
+                        rows(r[7]['dst'], 'self.m_values', wp.T0, T1) if r[7]['nan'] else 'false'))
+        return out
+    add(mk('result_t::add', TU_R, 'result_t::add', 'add', nparams(1), setup_add, post_add,
+           'add() creates the slots of the new trials and preserves the old ones', SRC_R, invariants={1: inv_outer, 2: inv_inner}))
+
+    # ---- value(trial, split, value): mean over the folds of the stored mean of cell(trial, fold, split, value)
+    def setup_value(wp, keys):
+        setup_result(wp)
+        wp.t = int_param(wp, 'trial')
+        wp.assume(f'(and (<= 0 {wp.t}) (< {wp.t} {wp.T}))')           # assert(..) of the function
+        wp.assume(f'(>= {wp.F} 1)')                                   # at least one fold (assumption, reported)
+        enum_param(wp, 'split', 'split_type')
+        enum_param(wp, 'value', 'value_type')
+        c = cell(wp, wp.t, 'k', wp.env['split'].t, wp.env['value'].t)
+        wp.decls.append('(declare-fun M (Int Int Int Int) Real)')     # stored mean of a cell
+        wp.decls.append('(declare-fun S (Int) Real)')                 # spec: S(k) = sum of the means of folds [0, k)
+        wp.assume('(= (S 0) 0.0)')
+        wp.assume(f'(forall ((k Int)) (! (=> (>= k 0) (= (S (+ k 1)) (+ (S k) (M {c[0]} k {c[2]} {c[3]})))) :pattern ((S k))))')
+
+    def inv_value(wp):
+        fold, folds = wp.env['fold'].t, wp.env['folds'].t
+        return [('0 <= fold <= folds == folds()', f'(and (<= 0 {fold}) (<= {fold} {folds}) (= {folds} {wp.F}))'),
+                ('sum_mean == sum of the stored means of folds [0, fold)', f'(= {wp.env["sum_mean"].t} (S {fold}))')]
+    inv_value.decreases = lambda wp, env: f'(- {env["folds"].t} {env["fold"].t})'
+
+    def post_value(wp, rv):
+        return [('value(trial, split, value) == (sum over folds of mean(cell(trial, fold, split, value))) / folds()',
+                 f'(= {rv.t} (/ (S {wp.F}) (to_real {wp.F})))')]
+    add(mk('result_t::value', TU_R, 'result_t::value', 'value', nparams(3), setup_value, post_value,
+           'mean across folds of the stored statistic (double as Real)', SRC_R, invariants={1: inv_value}, real=True))
+    vcs.append(value_defaults_vc())
     return vcs, fns
+
+
+def value_defaults_vc():
+    """optimum_trial() compares value(trial) with the default arguments: they must be (valid, errors) for the optimum to
+    be the smallest mean *validation error*.  Read from clang's AST of the real declarations."""
+    _, val = load(TU_R, 'result_t::value', 'value', nparams(3))
+    defaults = []
+    for p in [c for c in val['inner'] if c['kind'] == 'ParmVarDecl'][1:]:
+        d = [x for x in astload.walk(p) if x.get('kind') == 'DeclRefExpr' and x['referencedDecl'].get('kind') == 'EnumConstantDecl']
+        defaults.append(d[0]['referencedDecl']['name'] if d else None)
+    _, opt = load(TU_R, 'result_t::optimum_trial', 'optimum_trial', nparams(0))
+    calls = [c for c in astload.walk(opt) if c.get('kind') == 'CXXMemberCallExpr' and c['inner'][0].get('name') == 'value']
+    ok = defaults == ['valid', 'errors'] and len(calls) == 1 and \
+        [a.get('kind') for a in calls[0]['inner'][2:]] == ['CXXDefaultArgExpr', 'CXXDefaultArgExpr']
+    return VC('result_t::optimum_trial/compares value(trial, split_type::valid, value_type::errors)',
+              f'(assert (not {"true" if ok else "false"}))', about='the compared quantity is the mean validation error',
+              source={'file': HDR_R}, group='result_t::optimum_trial')
 
 
 def lemmas():
